@@ -203,7 +203,11 @@ def main(argv):
                 sel = [u for u in sel if tm.get(u['name'], 0) <= 25 or u['name'] in ('htp_connp_req_data', 'htp_connp_res_data')]
     if a.only_files:
         touched = set(a.only_files.split(','))
-        sel = [u for u in sel if touched & set(list(u.get('src') or []) + list(u.get('link') or []))]
+
+        def _touches(u):
+            # conservative: sources may also arrive through a unit's `pre` text (mechanically normalised copies) - then the name shows up in the unit's text
+            return bool(touched & set(list(u.get('src') or []) + list(u.get('link') or []))) or not u.get('src') or any(t in repr(u) for t in touched)
+        sel = [u for u in sel if _touches(u)]
     prop = a.prop or (sel[0]['props'][0] if sel else '?')
     t0 = time.time()
     # known findings that are carved out of a unit by a macro are re-confirmed on every run: the same unit is run once more
@@ -229,7 +233,7 @@ def main(argv):
             pu['min_obl'] = 1
             probes.append(pu)
         if a.only_files:
-            probes = [u for u in probes if touched & set(list(u.get('src') or []) + list(u.get('link') or []))]
+            probes = [u for u in probes if _touches(u)]
         sel = sel + probes
     results = []
     with cf.ThreadPoolExecutor(max_workers=a.j) as ex:
